@@ -283,6 +283,12 @@ def scratch_base():
     if base and os.path.isdir(base):
         return base
     root = "/dev/shm" if os.path.isdir("/dev/shm") else None
+    if root:
+        # scratch of earlier runs that were killed before their atexit handler ran
+        for name in os.listdir(root):
+            parts = name.split("-")
+            if len(parts) >= 3 and parts[0] == "verif" and parts[1].isdigit() and not os.path.exists("/proc/%s" % parts[1]):
+                shutil.rmtree(os.path.join(root, name), ignore_errors=True)
     base = tempfile.mkdtemp(prefix="verif-%d-" % os.getpid(), dir=root)
     os.environ["VERIF_SCRATCH"] = base
     owner = os.getpid()
